@@ -6,7 +6,9 @@ import (
 
 	"github.com/cockroachdb/errors"
 	"verifh/c16a"
+	"verifh/c16b"
 	"verifh/c16d"
+	"verifh/c16x"
 	"verifh/sym"
 )
 
@@ -82,4 +84,40 @@ func H_C16_Algebra(v *sym.V) {
 	}
 	_, _ = c16a.L0(v, which, d)
 	v.Reach("algebra")
+}
+
+// H_C16_Repeat: the same call site is reached twice with different callers
+// above it (depth 1): each call must name its own caller.
+func H_C16_Repeat(v *sym.V) {
+	which := v.Choice("entry", len(c16a.Entries))
+	ent := c16a.Entries[which]
+	if !ent.HasDepth {
+		return
+	}
+	first := v.Choice("first", 2)
+	for i := 0; i < 2; i++ {
+		var err error
+		var dom errors.Domain
+		want := "c16b"
+		if (i == 0) == (first == 0) {
+			err, dom = c16b.L1(v, which, 1)
+		} else {
+			err, dom = c16x.L1(v, which, 1)
+			want = "c16x"
+		}
+		if ent.Domain {
+			v.Assert("repeat-domain@"+ent.Name, filepath.Base(string(dom)) == want)
+			continue
+		}
+		st := errors.GetReportableStackTrace(err)
+		for c := err; st == nil && c != nil; c = errors.UnwrapOnce(c) {
+			st = errors.GetReportableStackTrace(c)
+		}
+		if st == nil || len(st.Frames) == 0 {
+			v.Assert("repeat-has-stack@"+ent.Name, false)
+			continue
+		}
+		f := st.Frames[len(st.Frames)-1]
+		v.Assert("repeat-frame@"+ent.Name, f.Module == "verifh/"+want && f.Function == "L1")
+	}
 }
